@@ -24,7 +24,7 @@ class SpecFn:
 
 
 SPEC_FORMS = {"old", "implies", "forall", "exists", "ite", "keyset_has", "keyset_get", "same_record", "close",
-              "elements"}
+              "elements", "new_pending_task"}
 
 
 class Interp:
@@ -1060,6 +1060,9 @@ class Interp:
         # modular: callee under contract is replaced by its contract
         c = eng.contract_for_call(self, target)
         if c is not None:
+            if isinstance(f.node, ast.AsyncFunctionDef):
+                # calling an async function only makes the coroutine; its contract applies when awaited
+                return Coro(lambda: eng.call_by_contract(self, c, f, args, kwargs), label=f.qualname)
             return eng.call_by_contract(self, c, f, args, kwargs)
         if not isinstance(f.node, ast.Lambda) and f.closure is None and not eng.may_inline(self, target, f):
             raise Unsupported(f"call to {target}: no contract and not inlinable")
@@ -1293,6 +1296,11 @@ class Interp:
             if name == "keyset_has":
                 return mk(keysets.nsel(h.val.present, keys), "bool")
             return keysets.elem_at(self.engine, self, h.val, keys)
+        if name == "new_pending_task":
+            from .spec import TaskT
+            t = self.engine.make_sym(ctx, TaskT(), fresh_name("late_task"))
+            ctx.deref(t).fields["_done"] = False
+            return t
         if name == "close":
             a = self.eval(node.args[0], fr)
             b = self.eval(node.args[1], fr)
@@ -1742,6 +1750,13 @@ class Interp:
                 if conds and self.ctx.branch(z3.Or(*conds), f"exception is {name}"):
                     return True
         return False
+
+    def exc_class_name_of(self, v):
+        if isinstance(v, ClassRef):
+            return v.name
+        if isinstance(v, ExtRef):
+            return v.name.split(".")[-1]
+        raise Unsupported(f"exception class {v!r}")
 
     def exc_class_name(self, t, fr):
         v = self.eval(t, fr)
